@@ -443,6 +443,18 @@ def vp(id, prop, expect, patches, note=""):
     V.append({"id": id, "prop": prop, "expect": expect, "note": note, "edits": [], "patch": patches})
 
 NEUTRAL = {
+    'neutral/setS/n1': ['C01', 'C03', 'C04'],
+    'neutral/setS/n10': ['C04', 'C08'],
+    'neutral/setS/n11': ['C05', 'C06'],
+    'neutral/setS/n12': ['C17'],
+    'neutral/setS/n2': ['C02', 'C10', 'C08'],
+    'neutral/setS/n3': ['C04', 'C08'],
+    'neutral/setS/n4': ['C03', 'C08'],
+    'neutral/setS/n5': ['C12', 'C01'],
+    'neutral/setS/n6': ['C02', 'C12', 'C10'],
+    'neutral/setS/n7': ['C10', 'C14'],
+    'neutral/setS/n8': ['C05', 'C07'],
+    'neutral/setS/n9': ['C05', 'C06'],
     'neutral/setQ/n1': ['C01', 'C03', 'C04', 'C10', 'C11'],
     'neutral/setQ/n10': ['C17'],
     'neutral/setQ/n11': ['C13', 'C15'],
